@@ -53,7 +53,7 @@ def case_st(draw):
     vals = [k / 4.0 + 0.125 for k in draw(st.lists(st.integers(4, 40), min_size=ncell, max_size=ncell, unique=True))]
     if draw(st.booleans()):
         vals[draw(st.integers(0, ncell - 1))] = "NaN"
-    a = {"dims": dims, "labels": labels, "vk": "f", "vals": vals}
+    a = {"dims": dims, "labels": labels, "vk": "f", "vals": vals, "hist": draw(gen.history(labels))}
     rel = draw(st.sampled_from(["same", "subset", "superset", "disjoint"]))
     if rel == "same":
         bd = list(dims)
